@@ -67,7 +67,14 @@ def coerce(val, dt, guard=True, rt=None, record=True):
         elif is_sym(val) and z3.is_real(val):
             val = SF(False, val).to_int()
         if k in "mM" or dt.itemsize == 8:
-            # 64-bit accumulators: wrap-around beyond the 64-bit range is outside every claim (inputs are bounded instead)
+            # 64-bit accumulators: wrap-around beyond the 64-bit range is outside every claim (inputs are bounded
+            # instead); concrete runs wrap like the hardware so that translator validation compares like with like
+            if not is_sym(val):
+                val = int(val)
+                if k == "u":
+                    val %= 2**64
+                elif not (-2**63 <= val < 2**63):
+                    val = (val + 2**63) % 2**64 - 2**63
             return val
         lo, hi = _int_range(dt)
         if is_sym(val):
